@@ -28,6 +28,17 @@ func lastCrashSeq(r *Run) int {
 	return s
 }
 
+// lastRestartSeq is the sequence number at which the last incarnation started.
+func lastRestartSeq(r *Run) int {
+	s := 0
+	for _, o := range r.Ops {
+		if o.Kind == "mrp-start" {
+			s = o.Seq
+		}
+	}
+	return s
+}
+
 func crashSeq(r *Run) int {
 	for _, o := range r.Ops {
 		if o.Kind == "crash" || o.Kind == "signal" {
@@ -79,7 +90,7 @@ func checkResume(r *Run, twinOuts string, spec []CrashSpec) []Violation {
 		// output files into outs/ ?
 		oracle := "outs-differ"
 		for _, ev := range vos.W.Events {
-			if ev.PKind == "mrp" && ev.Op == "rename" && strings.HasPrefix(ev.Path2, "ps/outs/") && ev.Seq < lastCrashSeq(r) {
+			if ev.PKind == "mrp" && ev.Op == "rename" && strings.HasPrefix(ev.Path2, "ps/outs/") && ev.Seq < lastRestartSeq(r) {
 				oracle = "outs-differ-after-interrupted-postprocess"
 			}
 		}
